@@ -8,7 +8,8 @@ from harness import core, env, r1cs, ir
 RULE = ("(a) histories: array shape (1-D length 1-6, 2-D up to 4x4), contents mixing plain constants and secrets, then "
         "a generated sequence of reads/writes with secret or public indices inside and outside the bounds, compared "
         "step by step with a Python list-of-lists model (values of every element after every step; IndexError exactly "
-        "when the model index is out of range; chained assignment on a returned row refused); emitted constraints "
+        "when the model index is out of range; chained assignment on a returned row refused; a row read at a secret index is a value: Array(row) copies and rows "
+        "stored into other matrices do not alias it); emitted constraints "
         "satisfied and reported values equal to wire expressions at the end; the same history re-run with other in-range "
         "secret index values must give the identical canonical trace. (b) small-field search (p=67): for every length "
         "1-4 and every position, circuit of a read (and of a write) with the index wire freed: for EVERY index value in "
@@ -47,6 +48,36 @@ def run_history(case, override_idx=None):
     info = {"secret_reads": 0, "write_then_other_read": False, "last_write": None, "oob": 0}
     for step, op in enumerate(case["ops"]):
         kind, idx, sec, wval, wsec = op
+        if kind in ("rowcopy", "rowstore"):
+            if len(shape) != 2 or not 0 <= idx[0] < shape[0]:
+                continue
+            i, j = idx[0], idx[1] % shape[1]
+            row = arr[ns.rt.PrivVal(i)]
+            before_row = list(model[i])
+            if kind == "rowcopy":
+                # c = Array(row) is a copy: writing to it changes neither the row read nor the matrix
+                c = ns.ar.Array(row)
+                c[ns.rt.PrivVal(j) if sec[1] else j] = ns.rt.PrivVal(wval) if wsec else wval
+                want_c = list(before_row)
+                want_c[j] = wval
+                if plain(ns, c) != want_c:
+                    return "step %d: copy of row %d after writing position %d is %r, model %r" % (step, i, j, plain(ns, c), want_c), info
+            else:
+                # the row stored in several rows of another matrix: writing one element changes one row only
+                d = ns.ar.Array([ns.ar.Array([0] * shape[1]) for _ in range(3)])
+                d[0] = row
+                d[2] = row
+                d[(0, ns.rt.PrivVal(j)) if sec[1] else (0, j)] = ns.rt.PrivVal(wval) if wsec else wval
+                want_d = [list(before_row), [0] * shape[1], list(before_row)]
+                want_d[0][j] = wval
+                if plain(ns, d) != want_d:
+                    return "step %d: matrix holding row %d twice after writing [0,%d] is %r, model %r" % (step, i, j, plain(ns, d), want_d), info
+            if plain(ns, row) != before_row:
+                return "step %d (%s): the row read at secret index %d changed to %r after a write to its copy (model %r)" % (step, kind, i, plain(ns, row), before_row), info
+            if plain(ns, arr) != model:
+                return "step %d (%s): the matrix changed to %r after a write to a copy of its row (model %r)" % (step, kind, plain(ns, arr), model), info
+            info["rowops"] = info.get("rowops", 0) + 1
+            continue
         if override_idx and step in override_idx:
             idx = override_idx[step]
         api_idx = tuple(ns.rt.PrivVal(i) if s else i for i, s in zip(idx, sec))
@@ -128,8 +159,8 @@ def draw_history(draw):
         mask = [draw(st.booleans()) for _ in range(shape[0])]
     ops = []
     for _ in range(draw(st.integers(1, 7))):
-        kind = draw(st.sampled_from("rrw"))
-        nidx = draw(st.integers(1, 2)) if two else 1
+        kind = draw(st.sampled_from(["r", "r", "w", "r", "w", "rowcopy", "rowstore"] if two else ["r", "r", "w"]))
+        nidx = (2 if kind.startswith("row") else draw(st.integers(1, 2))) if two else 1
         idx, sec = [], []
         for d in range(nidx):
             n = shape[d]
@@ -185,6 +216,8 @@ def history_shard(seed, n_examples):
             labels.append("out-of-range-access")
         if info.get("trace_compared"):
             labels.append("trace-compared")
+        if info.get("rowops"):
+            labels.append("row-copy/store")
         stats.case(case if nt else None, nt, labels)
         if msg:
             raise core.Violation(case, msg, "history")
